@@ -9,23 +9,42 @@ DRIVER = 'c06'
 IMPL = 'harness/impl/c06_impl.py'
 ALLOWED_AXIOMS = []
 ASSUMPTIONS = [
-    'theorems are about coq/Model/TxCodec.v and Model/BlockCodec.v: spec_* written from the protocol (BIP144, Core '
-    'serialize.h, SetCompact), lib_* mirroring transactions.py / blocks.py / encoding.py at the byte level',
+    'theorems are about coq/Model/TxCodec.v, Model/BlockCodec.v and Model/TxStrict.v: spec_* written from the protocol '
+    '(BIP144, Core serialize.h, SetCompact), lib_* mirroring transactions.py / blocks.py / encoding.py at the byte level',
     'the script-interpreting layer of the real parser (Script.parse_bytes, Input.update_scripts) is the identity on '
-    'bytes in the model; it is compared with the implementation by the correspondence only (standard input kinds and '
-    'random non-standard scripts); where it is not the identity the case falls in a recorded class',
+    'bytes in the byte-level model; it is compared with the implementation by the correspondence only (standard input '
+    'kinds and random non-standard scripts); where it is not the identity the case falls in a recorded class',
+    'the REFUSALS of that layer (Model/TxStrict.v: ScriptError for an undecodable signature-shaped item or a short push '
+    'in strict mode, the bare-multisig count check in both modes, keys never checked) re-use the Script.parse_bytes '
+    'model of C18 (Model/Wire.v) and the DER decoder model of C13 (Model/Der.v); they are validated by the '
+    'correspondence on the shaped-data stream (tag shp: standard script forms whose pushed data imitates keys / '
+    'signatures), where strict and non-strict refusal must be exactly as predicted; TransactionError "Unknown '
+    'unlocking script type" of Input.update_scripts is not modelled',
     'strict=True parsing may refuse a well-formed transaction it does not understand (documented); a refusal of a '
-    'non-standard transaction is not counted as a failure, an accepted transaction must round-trip',
-    'truncated inputs (a read past the end of the buffer) are outside the model: lib_parse returns None there',
+    'random non-standard transaction (tags non, plain) is not counted as a failure; a refusal of a standard form (tags '
+    'std, shp) is, unless the case lies in a recorded class; an accepted transaction must round-trip',
+    'truncated inputs (a read past the end of the buffer) are outside the model: lib_parse returns None there; in a '
+    'session of reader calls a transaction read at the end of the stream (reachable only after parse_transaction_dict) '
+    'is outside the model as well',
     'SHA-256 is the executable Gallina transcription Crypto/Sha256.v, cross-checked against hashlib on every case',
-    'block theorems: header codec, hash and target only; the two block transaction readers are modelled and '
-    'compared by the correspondence, not proved equal',
+    'block theorems: header codec, hash, target; sequences of reader calls on one Block object are proved equal to a '
+    'cursor over the block\'s own transactions (block_reader_session_exact) for blocks of well-formed transactions '
+    'outside the recorded byte-level classes; the reader code itself is tied to the model by the correspondence '
+    '(sessions of 3..12 calls on one object), not by translation',
+    'target: the number a compact value with the sign bit 0x00800000 on a non-zero mantissa encodes is taken to be '
+    'negative (SetCompact pfNegative); the recorded class target_outside_domain excuses exactly the documented answer of '
+    'the library there (24-bit coefficient read as positive; float below exponent 3), nothing else',
 ]
 RULE = ('boundary streams (every CompactSize form change for input/output/witness counts and script/item lengths, all '
         '256 one-byte scripts and witness items, field extremes), structured stream of standard input kinds and random '
         'non-standard scripts built bottom-up, API-built transactions, mutated/malformed stream, blocks of 1..50 '
-        'transactions, exhaustive exponent x boundary mantissa for target; a case is non-trivial when the '
-        'implementation parses/builds it; distinct by request')
+        'transactions, exhaustive exponent x boundary mantissa (sign bit clear and set) for target; shaped-data stream: '
+        'every standard script position (P2PKH / P2PK / P2SH-multisig scriptSig, P2WPKH / P2SH-P2WPKH / P2WSH witness, '
+        'P2PK / bare multisig / OP_RETURN outputs, redeem scripts) filled with key-shaped pushes that are no curve points '
+        '(no point for x, x >= p, wrong y, data) and, once recorded, signature-shaped pushes that are no DER signatures; '
+        'sessions: systematic and random sequences of reader calls on one Block object (every entry point, '
+        'parse_transactions with limit 0 / below / equal / above the count, both dictionary readers, serialize) judged '
+        'after every call; a case is non-trivial when the implementation parses/builds it; distinct by request')
 IMPL_TIMEOUT = 3000
 
 
@@ -512,11 +531,11 @@ def simple(ins=None, outs=None, v=1, lt=0):
 
 def target_cases(cs_):
     # ---- target: every exponent x boundary mantissas (sign bit 0x00800000 clear and set)
-    for e in range(0, 36):
+    for bits in (0x1d00ffff, 0x1c80ffff, 0x1dffffff, 0x1b0404cb, 0x170b8c8b, 0x207fffff, 0xffffffff, 0x03800000, 0x04923456):
+        cs_.append(Case('target', 'target %d' % bits))
+    for e in list(range(3, 36)) + [0, 1, 2]:
         for m in [0, 1, 0xff, 0x100, 0xffff, 0x10000, 0x123456, 0x7fffff, 0x800000, 0x800001, 0x80ffff, 0xffffff]:
             cs_.append(Case('target', 'target %d' % ((e << 24) | m)))
-    for bits in (0x1d00ffff, 0x1b0404cb, 0x170b8c8b, 0x207fffff, 0xffffffff, 0x1c80ffff, 0x1dffffff, 0x03800000, 0x04923456):
-        cs_.append(Case('target', 'target %d' % bits))
 
 
 RUN_TIER = [None]          # the tier of the run (set by main); gen_cases(.., 'thorough') inside a quick run is the widening
